@@ -204,9 +204,11 @@ impl LogState {
                 // In 'follow' mode, might get a line with no trailing \n
                 // (eg. when ./configure is halfway through a test), which we
                 // deal with below.
-                let mut line = String::new();
-                f.read_line(&mut line)?;
-                line
+                // Script output is not necessarily UTF-8; a line that is not
+                // must not end the view, so read bytes and substitute.
+                let mut bytes = Vec::new();
+                f.read_until(b'\n', &mut bytes)?;
+                String::from_utf8_lossy(&bytes).into_owned()
             } else {
                 String::new()
             };
